@@ -206,4 +206,911 @@ Section NI.
         destruct (zget f (ev_kfail e)); [intros X; inversion X; subst; exact Hbase|].
         intros X; inversion X; subst. apply Hrec; [exact Ef0|]. intros g Hg. apply zget_zset_other; exact Hg.
   Qed.
+
+  Definition fds_owned (j : work_id) (evs : sel_events) : Prop :=
+    forall f m, In (f, m) evs -> (0 <= f)%Z -> owner f = j.
+
+  Definition regs_grow_owned (j : work_id) (S S' : State) : Prop :=
+    forall g m, zget g (regs_of W j S') = Some m -> (exists m', zget g (regs_of W j S) = Some m') \/ owner g = j.
+
+  Lemma uwe_loop_frame e j evs : forall (S : State) S' r,
+    fds_owned j evs -> UWE_LOOP e j S evs = (S', r) ->
+    frame j S S' /\ works S' = works S /\ regs_grow_owned j S S'.
+  Proof.
+    induction evs as [|[f m] t IH]; intros S S' r Hown; cbn [uwe_loop].
+    - intros X; inversion X; subst. split; [apply frame_refl|]. split; [reflexivity|].
+      intros g m Hg; left; eexists; exact Hg.
+    - destruct (UWE_ONE e j S (f, m)) as [S1 r1] eqn:E1.
+      destruct (uwe_one_effect e j S (f, m) S1 r1 E1) as (C1 & R1 & Sel1 & Neg1 & G1). cbn [fst] in *.
+      destruct (same_core_frame_parts S S1 C1) as (Hw & Hg & Ho & Ht & Hu).
+      assert (Hf1 : frame j S S1).
+      { constructor; try (intros; congruence).
+        - exact R1.
+        - intros g Hgj. destruct Neg1 as [Hpos|Hsame]; [|rewrite Hsame; reflexivity].
+          apply Sel1. intros ->. apply Hgj. apply (Hown f m); [left; reflexivity|exact Hpos]. }
+      assert (Hgrow1 : regs_grow_owned j S S1).
+      { intros g m0 Hg0. destruct (G1 g m0 Hg0) as [X|[-> Hpos]]; [left; exact X|right].
+        apply (Hown f m); [left; reflexivity|exact Hpos]. }
+      destruct r1 as [u|x].
+      + intros X. destruct (IH S1 S' r (fun f0 m0 Hin => Hown f0 m0 (or_intror Hin)) X) as (F2 & W2 & G2).
+        split; [eapply frame_trans; eassumption|]. split; [congruence|].
+        intros g m0 Hg0. destruct (G2 g m0 Hg0) as [[m' X']|X']; [apply (Hgrow1 g m' X')|right; exact X'].
+      + intros X; inversion X; subst. split; [exact Hf1|]. split; [exact Hw|exact Hgrow1].
+  Qed.
+
+  Lemma set_works_frame j (S : State) w : frame j S (set_works S (zset j w (works S))).
+  Proof.
+    constructor; try reflexivity. intros k Hk. cbn [works set_works]. apply zget_zset_other; exact Hk.
+  Qed.
+
+  Lemma regs_of_set_works j (S : State) ws : regs_of W j (set_works S ws) = regs_of W j S.
+  Proof. reflexivity. Qed.
+
+  Lemma cleanup_frame e j (S : State) :
+    (forall f m, zget f (regs_of W j S) = Some m -> owner f = j) -> frame j S (CLEANUP e j S).
+  Proof.
+    intros Hown. constructor.
+    - intros k Hk. rewrite cleanup_works. apply zget_zdel_other; exact Hk.
+    - intros k Hk. rewrite cleanup_registered. apply zget_zdel_other; exact Hk.
+    - intros f Hf. rewrite cleanup_sel_get. destruct (zmem f (regs_of W j S)) eqn:Em; [|reflexivity].
+      exfalso. apply zmem_zget in Em. destruct (zget f (regs_of W j S)) as [m|] eqn:E; [|congruence].
+      apply Hf. eapply Hown; exact E.
+    - intros k Hk. rewrite cleanup_gone. destruct (zget j (works S)); [|reflexivity].
+      rewrite gone_of_app. unfold gone_of at 2. cbn [filter fst]. apply Z.eqb_neq in Hk. rewrite Z.eqb_sym, Hk.
+      cbn [map]. apply app_nil_r.
+    - intros k Hk. rewrite cleanup_oslog. destruct (zget j (works S)); [|reflexivity]. destruct wq; [|reflexivity].
+      rewrite os_of_app. cbn [os_of filter]. apply Z.eqb_neq in Hk. rewrite Z.eqb_sym, Hk. apply app_nil_r.
+    - apply cleanup_tick.
+    - apply cleanup_unfinished.
+  Qed.
+
+  (* own survives a cleanup: fewer works, fewer registrations *)
+  Lemma cleanup_own e j (S : State) : own S -> own (CLEANUP e j S).
+  Proof.
+    intros [G R]. constructor.
+    - intros k w. rewrite cleanup_works, zget_zdel. destruct (k =? j)%Z; [discriminate|apply G].
+    - intros k f m. rewrite regs_of_cleanup. destruct (k =? j)%Z; [discriminate|apply R].
+  Qed.
+
+  Hypothesis Hdisc : disciplined.
+
+  Lemma update_work_events_other e j (S : State) S' r :
+    own S -> UWE e j S = (S', r) -> frame j S S' /\ own S'.
+  Proof.
+    intros [G R]. unfold update_work_events.
+    destruct (zget j (works S)) as [w|] eqn:Ew.
+    - pose proof (d_get Hdisc j w (ev_io e j) (G j w Ew)) as [Hgood Hfds].
+      destruct (w_get_events w (ev_io e j)) as [w' rg]. cbn [fst snd] in *.
+      set (S1 := set_works S (zset j w' (works S))).
+      assert (Hown1 : own S1).
+      { constructor.
+        - intros k wk. subst S1; cbn [works set_works]. rewrite zget_zset.
+          destruct (k =? j)%Z eqn:Ekj; [apply Z.eqb_eq in Ekj; subst; intros X; inversion X; subst; exact Hgood|apply G].
+        - intros k f m. apply R. }
+      destruct rg as [evs|x].
+      + intros X. destruct (uwe_loop_frame e j evs S1 S' r (Hfds evs eq_refl) X) as (F & Hw & Gr).
+        split; [eapply frame_trans; [apply set_works_frame|exact F]|].
+        destruct Hown1 as [G1 R1]. constructor.
+        * intros k wk. rewrite Hw. apply G1.
+        * intros k f m Hk. destruct (Z.eq_dec k j) as [->|Hkj].
+          -- destruct (Gr f m Hk) as [[m' X']|X']; [eapply R1; exact X'|exact X'].
+          -- apply (R1 k f m). unfold regs_of in *. rewrite <- (fr_reg _ _ _ F k Hkj). exact Hk.
+      + intros X; inversion X; subst. split; [apply set_works_frame|exact Hown1].
+    - intros X; inversion X; subst. split; [apply frame_refl|constructor; assumption].
+  Qed.
+
+  Lemma update_selector_one_other e j (S : State) :
+    own S -> frame j S (UPD_ONE e [] S j) /\ own (UPD_ONE e [] S j).
+  Proof.
+    intros Hown. unfold update_selector_one. cbn [zin].
+    destruct (UWE e j S) as [S' r] eqn:E.
+    destruct (update_work_events_other e j S S' r Hown E) as [F O].
+    destruct r as [u|x]; [split; assumption|].
+    split; [|apply cleanup_own; exact O].
+    eapply frame_trans; [exact F|]. apply cleanup_frame. intros f m. apply (own_regs _ O).
+  Qed.
+
+  (* ---------------------------------------------------------------- the same step on behalf of work i, in both runs *)
+  Lemma ensure_sim i (S A : State) : sim i S A -> sim i (ensure_reg W i S) (ensure_reg W i A).
+  Proof.
+    intros H. pose proof H as [S1 S2 S3 S4 S5 S6 S7 S8 S9].
+    assert (Hm : zmem i (registered S) = zmem i (registered A)) by (unfold zmem; rewrite S2; reflexivity).
+    unfold ensure_reg. rewrite <- Hm. destruct (zmem i (registered S)); [exact H|].
+    constructor; cbn; try assumption. rewrite !zget_zset_same. reflexivity.
+  Qed.
+
+  Lemma record_sim i f m (S A : State) :
+    sim i S A -> sim i (record_fd W i f m (zset f (m, i) (sel S)) S) (record_fd W i f m (zset f (m, i) (sel A)) A).
+  Proof.
+    intros H. pose proof (sim_regs _ _ _ H) as R. destruct H as [S1 S2 S3 S4 S5 S6 S7 S8 S9].
+    unfold record_fd. constructor; cbn; try assumption.
+    - rewrite !zget_zset_same, R. reflexivity.
+    - intros g Hg. rewrite !zget_zset. destruct (g =? f)%Z; [reflexivity|apply S3; exact Hg].
+  Qed.
+
+  Lemma zdel_sel_sim i f (S A : State) :
+    sim i S A -> sim i (set_sel S (zdel f (sel S))) (set_sel A (zdel f (sel A))).
+  Proof.
+    intros [S1 S2 S3 S4 S5 S6 S7 S8 S9]. constructor; cbn; try assumption.
+    intros g Hg. rewrite !zget_zdel. destruct (g =? f)%Z; [reflexivity|apply S3; exact Hg].
+  Qed.
+
+  Lemma uwe_one_par e i (S A : State) fm S' r A' r' :
+    sim i S A -> (forall f m, zget f (regs_of W i S) = Some m -> owner f = i) ->
+    ((0 <= fst fm)%Z -> owner (fst fm) = i) ->
+    UWE_ONE e i S fm = (S', r) -> UWE_ONE e i A fm = (A', r') -> r = r' /\ sim i S' A'.
+  Proof.
+    intros Hsim Hregs Hfm. unfold uwe_one. destruct fm as [f m]. cbn [fst] in Hfm.
+    change (if zmem i (registered S) then S else set_registered S (zset i [] (registered S))) with (ensure_reg W i S).
+    change (if zmem i (registered A) then A else set_registered A (zset i [] (registered A))) with (ensure_reg W i A).
+    pose proof (ensure_sim i S A Hsim) as H0.
+    assert (Hregs0 : forall f m, zget f (regs_of W i (ensure_reg W i S)) = Some m -> owner f = i)
+      by (intros f0 m0; rewrite regs_of_ensure; apply Hregs).
+    set (S0 := ensure_reg W i S) in *. set (A0 := ensure_reg W i A) in *. clearbody S0 A0.
+    assert (Hz : zget f (regs_of W i A0) = zget f (regs_of W i S0)) by (rewrite (sim_regs _ _ _ H0); reflexivity).
+    rewrite Hz. clear Hz.
+    destruct (zget f (regs_of W i S0)) as [oldmask|] eqn:Eold.
+    - destruct (m =? oldmask).
+      + intros X Y; inversion X; inversion Y; subst. split; [reflexivity|exact H0].
+      + unfold sel_modify. destruct (f <? 0)%Z.
+        { intros X Y; inversion X; inversion Y; subst. split; [reflexivity|].
+          destruct H0 as [S1 S2 S3 S4 S5 S6 S7 S8 S9]. constructor; cbn; assumption. }
+        rewrite <- (sim_sel _ _ _ H0 f (Hregs0 f oldmask Eold)).
+        destruct (zget f (sel S0)) as [[oev odata]|].
+        * destruct (m =? oev).
+          -- intros X Y; inversion X; inversion Y; subst. split; [reflexivity|].
+             pose proof (sim_regs _ _ _ H0) as R. destruct H0 as [S1 S2 S3 S4 S5 S6 S7 S8 S9].
+             constructor; cbn; try assumption.
+             ++ rewrite !zget_zset_same, R. reflexivity.
+             ++ intros g Hg. rewrite !zget_zset. destruct (g =? f)%Z; [reflexivity|apply S3; exact Hg].
+          -- destruct (zget f (ev_kfail e)).
+             ++ intros X Y; inversion X; inversion Y; subst. split; [reflexivity|apply zdel_sel_sim; exact H0].
+             ++ intros X Y; inversion X; inversion Y; subst. split; [reflexivity|apply record_sim; exact H0].
+        * intros X Y; inversion X; inversion Y; subst. split; [reflexivity|].
+          destruct H0 as [S1 S2 S3 S4 S5 S6 S7 S8 S9]. constructor; cbn; assumption.
+    - destruct (f =? -1)%Z.
+      + intros X Y; inversion X; inversion Y; subst. split; [reflexivity|exact H0].
+      + unfold sel_register.
+        destruct ((m =? 0) || (3 <? m)); [intros X Y; inversion X; inversion Y; subst; split; [reflexivity|exact H0]|].
+        destruct (f <? 0)%Z eqn:Ef0; [intros X Y; inversion X; inversion Y; subst; split; [reflexivity|exact H0]|].
+        apply Z.ltb_ge in Ef0.
+        assert (Hm : zmem f (sel S0) = zmem f (sel A0)).
+        { unfold zmem. rewrite (sim_sel _ _ _ H0 f (Hfm Ef0)). reflexivity. }
+        rewrite <- Hm. destruct (zmem f (sel S0)); [intros X Y; inversion X; inversion Y; subst; split; [reflexivity|exact H0]|].
+        destruct (zget f (ev_kfail e)); [intros X Y; inversion X; inversion Y; subst; split; [reflexivity|exact H0]|].
+        intros X Y; inversion X; inversion Y; subst. split; [reflexivity|apply record_sim; exact H0].
+  Qed.
+
+  Definition regs_owned (i : work_id) (S : State) : Prop :=
+    forall f m, zget f (regs_of W i S) = Some m -> owner f = i.
+
+  Lemma uwe_loop_par e i evs : forall (S A : State) S' r A' r',
+    sim i S A -> regs_owned i S -> fds_owned i evs ->
+    UWE_LOOP e i S evs = (S', r) -> UWE_LOOP e i A evs = (A', r') -> r = r' /\ sim i S' A'.
+  Proof.
+    induction evs as [|[f m] t IH]; intros S A S' r A' r' Hsim Hregs Hown; cbn [uwe_loop].
+    - intros X Y; inversion X; inversion Y; subst. split; [reflexivity|exact Hsim].
+    - destruct (UWE_ONE e i S (f, m)) as [S1 r1] eqn:E1. destruct (UWE_ONE e i A (f, m)) as [A1 a1] eqn:E2.
+      assert (Hf : (0 <= f)%Z -> owner f = i) by (intros Hp; apply (Hown f m); [left; reflexivity|exact Hp]).
+      destruct (uwe_one_par e i S A (f, m) S1 r1 A1 a1 Hsim Hregs Hf E1 E2) as [<- Hsim1].
+      destruct r1 as [u|x].
+      + apply IH; [exact Hsim1| |intros f0 m0 Hin; apply (Hown f0 m0); right; exact Hin].
+        destruct (uwe_one_effect e i S (f, m) S1 (Ok u) E1) as (_ & _ & _ & _ & G1). cbn [fst] in G1.
+        intros g m0 Hg. destruct (G1 g m0 Hg) as [[m' X]|[-> Hp]]; [eapply Hregs; exact X|apply Hf; exact Hp].
+      + intros X Y; inversion X; inversion Y; subst. split; [reflexivity|exact Hsim1].
+  Qed.
+
+  Lemma set_works_sim i (S A : State) w :
+    sim i S A -> sim i (set_works S (zset i w (works S))) (set_works A (zset i w (works A))).
+  Proof.
+    intros [S1 S2 S3 S4 S5 S6 S7 S8 S9]. constructor; cbn; try assumption.
+    - rewrite !zget_zset_same. reflexivity.
+    - intros j Hj. rewrite zget_zset_other by exact Hj. apply S9; exact Hj.
+  Qed.
+
+  Lemma update_work_events_par e i (S A : State) S' r A' r' :
+    sim i S A -> own S -> UWE e i S = (S', r) -> UWE e i A = (A', r') -> r = r' /\ sim i S' A'.
+  Proof.
+    intros Hsim [G R]. unfold update_work_events. rewrite <- (sim_work _ _ _ Hsim).
+    destruct (zget i (works S)) as [w|] eqn:Ew.
+    - pose proof (d_get Hdisc i w (ev_io e i) (G i w Ew)) as [_ Hfds].
+      destruct (w_get_events w (ev_io e i)) as [w' rg]. cbn [snd] in Hfds.
+      pose proof (set_works_sim i S A w' Hsim) as Hsim1.
+      destruct rg as [evs|x].
+      + apply uwe_loop_par; [exact Hsim1|intros f m; apply R|exact (Hfds evs eq_refl)].
+      + intros X Y; inversion X; inversion Y; subst. split; [reflexivity|exact Hsim1].
+    - intros X Y; inversion X; inversion Y; subst. split; [reflexivity|exact Hsim].
+  Qed.
+
+  Lemma cleanup_par e i (S A : State) : sim i S A -> sim i (CLEANUP e i S) (CLEANUP e i A).
+  Proof.
+    intros Hsim. pose proof (sim_regs _ _ _ Hsim) as R. destruct Hsim as [S1 S2 S3 S4 S5 S6 S7 S8 S9].
+    constructor.
+    - rewrite !cleanup_works, !zget_zdel_same. reflexivity.
+    - rewrite !cleanup_registered, !zget_zdel_same. reflexivity.
+    - intros f Hf. rewrite !cleanup_sel_get, R, (S3 f Hf). reflexivity.
+    - rewrite !cleanup_gone, <- S1. destruct (zget i (works S)); [|exact S4].
+      rewrite !gone_of_app, S4. reflexivity.
+    - rewrite !cleanup_oslog, <- S1. destruct (zget i (works S)); [|exact S5]. destruct wq; [|exact S5].
+      rewrite !os_of_app, S5. reflexivity.
+    - rewrite !cleanup_tick. exact S6.
+    - rewrite cleanup_unfinished. exact S7.
+    - rewrite cleanup_unfinished. exact S8.
+    - intros j Hj. rewrite cleanup_works, zget_zdel. destruct (j =? i)%Z; [reflexivity|apply S9; exact Hj].
+  Qed.
+
+  Lemma update_selector_one_par e i (S A : State) :
+    sim i S A -> own S -> sim i (UPD_ONE e [] S i) (UPD_ONE e [] A i).
+  Proof.
+    intros Hsim Hown. unfold update_selector_one. cbn [zin].
+    destruct (UWE e i S) as [S' r] eqn:E1. destruct (UWE e i A) as [A' r'] eqn:E2.
+    destruct (update_work_events_par e i S A S' r A' r' Hsim Hown E1 E2) as [<- Hsim1].
+    destruct r; [exact Hsim1|apply cleanup_par; exact Hsim1].
+  Qed.
+
+  Lemma update_selector_fold_sim e i l : forall (S A : State),
+    sim i S A -> own S ->
+    sim i (fold_left (UPD_ONE e []) l S) (fold_left (UPD_ONE e []) (filter (fun j => (j =? i)%Z) l) A) /\
+    own (fold_left (UPD_ONE e []) l S).
+  Proof.
+    induction l as [|j t IH]; intros S A Hsim Hown; cbn [fold_left filter]; [split; assumption|].
+    destruct (update_selector_one_other e j S Hown) as [Hfr Hown1].
+    destruct (j =? i)%Z eqn:Eji.
+    - apply Z.eqb_eq in Eji; subst j. cbn [fold_left]. apply IH; [apply update_selector_one_par; assumption|exact Hown1].
+    - apply Z.eqb_neq in Eji. apply IH; [|exact Hown1]. eapply sim_frame; eassumption.
+  Qed.
+
+  Lemma filter_eqb_nodup i l : NoDup l -> filter (fun j => (j =? i)%Z) l = if zin i l then [i] else [].
+  Proof.
+    induction l as [|x t IH]; intros Hn; cbn [filter zin]; [reflexivity|].
+    inversion Hn as [|? ? Hx Ht]; subst. rewrite (IH Ht). rewrite Z.eqb_sym.
+    destruct (i =? x)%Z eqn:E; cbn [orb]; [|reflexivity].
+    apply Z.eqb_eq in E; subst x. destruct (zin i t) eqn:Ez; [|reflexivity].
+    apply zin_In in Ez. contradiction.
+  Qed.
+
+  Lemma only_keys {V} i (d : zdict V) :
+    (forall j, j <> i -> zget j d = None) -> NoDup (zkeys d) -> zkeys d = if zmem i d then [i] else [].
+  Proof.
+    intros Honly Hn.
+    assert (Hall : forall j, In j (zkeys d) -> j = i).
+    { intros j Hj. apply zkeys_zget in Hj. destruct (Z.eq_dec j i); [assumption|]. rewrite Honly in Hj by assumption. congruence. }
+    rewrite <- zin_zkeys. destruct (zkeys d) as [|a [|b t]]; cbn [zin].
+    - reflexivity.
+    - rewrite (Hall a) by (left; reflexivity). rewrite Z.eqb_refl. reflexivity.
+    - exfalso. inversion Hn as [|? ? Hx _]; subst. apply Hx.
+      rewrite (Hall a) by (left; reflexivity). rewrite <- (Hall b) at 1 by (right; left; reflexivity). left; reflexivity.
+  Qed.
+
+  Lemma keys_alone i (S A : State) :
+    sim i S A -> NoDup (zkeys (works S)) -> NoDup (zkeys (works A)) ->
+    zkeys (works A) = filter (fun j => (j =? i)%Z) (zkeys (works S)).
+  Proof.
+    intros Hsim Hs Ha. rewrite (only_keys i (works A) (sim_only _ _ _ Hsim) Ha), (filter_eqb_nodup i _ Hs), zin_zkeys.
+    unfold zmem. rewrite (sim_work _ _ _ Hsim). reflexivity.
+  Qed.
+
+  Lemma update_selector_sim e i (S A : State) :
+    sim i S A -> own S -> INV None S -> INV None A ->
+    sim i (UPD e S) (UPD e A) /\ own (UPD e S).
+  Proof.
+    intros Hsim Hown Hi Ha. unfold update_selector.
+    rewrite (sim_unfS _ _ _ Hsim), (sim_unfA _ _ _ Hsim). cbn [map].
+    rewrite (keys_alone i S A Hsim (inv_nodup _ _ _ _ Hi) (inv_nodup _ _ _ _ Ha)).
+    apply update_selector_fold_sim; assumption.
+  Qed.
+
+  (* ---------------------------------------------------------------- select: what is ready for work i *)
+  Definition wbi_entry (d : Z) (f : fd) (m : mask) (wbi : work_by_ids) : list fd * list fd :=
+    let '(rs, ws) := match zget d wbi with Some x => x | None => ([], []) end in
+    (if N.land m EVENT_READ =? 0 then rs else rs ++ [f], if N.land m EVENT_WRITE =? 0 then ws else ws ++ [f]).
+  Definition wbi_add (d : Z) (f : fd) (m : mask) (wbi : work_by_ids) : work_by_ids :=
+    zset d (wbi_entry d f m wbi) (if zmem d wbi then wbi else zset d ([], []) wbi).
+
+  Lemma select_one_eq sm wbi nwa f ev :
+    select_one wq sm (wbi, nwa) (f, ev) =
+    match zget f sm with
+    | None => Ok (wbi, nwa)
+    | Some (kev, data) =>
+        if negb nwa && is_wq wq f
+        then (if N.land (N.land ev kev) EVENT_READ =? 0 then Err AssertionError else Ok (wbi, true))
+        else Ok (wbi_add data f (N.land ev kev) wbi, nwa)
+    end.
+  Proof.
+    unfold select_one. destruct (zget f sm) as [[kev data]|]; [|reflexivity].
+    destruct (negb nwa && is_wq wq f); [reflexivity|].
+    unfold wbi_add, wbi_entry. destruct (zmem data wbi) eqn:Em.
+    - destruct (zget data wbi) as [[rs ws]|]; reflexivity.
+    - rewrite zget_zset_same. apply zmem_false in Em. rewrite Em. reflexivity.
+  Qed.
+
+  Lemma zget_wbi_add k d f m wbi :
+    zget k (wbi_add d f m wbi) = if (k =? d)%Z then Some (wbi_entry d f m wbi) else zget k wbi.
+  Proof.
+    unfold wbi_add. rewrite zget_zset. destruct (k =? d)%Z eqn:E; [reflexivity|].
+    destruct (zmem d wbi); [reflexivity|]. rewrite zget_zset, E. reflexivity.
+  Qed.
+
+  Lemma wbi_add_nodup d f m wbi : NoDup (zkeys wbi) -> NoDup (zkeys (wbi_add d f m wbi)).
+  Proof.
+    intros H. unfold wbi_add. apply znodup_zset. destruct (zmem d wbi); [exact H|apply znodup_zset; exact H].
+  Qed.
+
+  Lemma select_one_nodup sm acc fm acc' :
+    select_one wq sm acc fm = Ok acc' -> NoDup (zkeys (fst acc)) -> NoDup (zkeys (fst acc')).
+  Proof.
+    destruct acc as [wbi nwa], fm as [f ev]. rewrite select_one_eq. cbn [fst].
+    destruct (zget f sm) as [[kev data]|]; [|intros X; inversion X; subst; auto].
+    destruct (negb nwa && is_wq wq f).
+    - destruct (N.land (N.land ev kev) EVENT_READ =? 0); [discriminate|intros X; inversion X; subst; auto].
+    - intros X; inversion X; subst. cbn [fst]. apply wbi_add_nodup.
+  Qed.
+
+  Lemma select_loop_nodup sm l : forall acc acc',
+    select_loop wq sm acc l = Ok acc' -> NoDup (zkeys (fst acc)) -> NoDup (zkeys (fst acc')).
+  Proof.
+    induction l as [|fm t IH]; intros acc acc'; cbn [select_loop]; [intros X; inversion X; subst; auto|].
+    destruct (select_one wq sm acc fm) as [acc1|x] eqn:E; [|discriminate].
+    intros X Hn. eapply IH; [exact X|]. eapply select_one_nodup; eassumption.
+  Qed.
+
+  Lemma wbi_entry_cong d f m wS wA : zget d wS = zget d wA -> wbi_entry d f m wS = wbi_entry d f m wA.
+  Proof. unfold wbi_entry. intros ->. reflexivity. Qed.
+
+  (* a descriptor registered in the alone run is registered, identically, in the joint run *)
+  Lemma sel_alone_entry i (S A : State) f kev d :
+    sim i S A -> INV None A -> own S -> zget f (sel A) = Some (kev, d) ->
+    zget f (sel S) = Some (kev, d) \/ (wq = Some f).
+  Proof.
+    intros Hsim Ha Hoa Hf. destruct (inv_sel_reg _ _ _ _ Ha f kev d Hf) as [(Hq&_&_)|(Hnq & Hd & Hr)]; [right; exact Hq|left].
+    assert (d = i).
+    { destruct (Z.eq_dec d i) as [|Hne]; [assumption|]. apply zmem_zget in Hd. rewrite (sim_only _ _ _ Hsim d Hne) in Hd. congruence. }
+    subst d. rewrite <- (sim_regs _ _ _ Hsim) in Hr. rewrite (sim_sel _ _ _ Hsim f (own_regs _ Hoa i f kev Hr)). exact Hf.
+  Qed.
+
+  Lemma select_one_sim i (S A : State) wS wA n fm wS' nS' wA' nA' :
+    sim i S A -> INV None S -> INV None A -> own S ->
+    select_one wq (sel S) (wS, n) fm = Ok (wS', nS') ->
+    select_one wq (sel A) (wA, n) fm = Ok (wA', nA') ->
+    zget i wS = zget i wA -> zget i wS' = zget i wA' /\ nS' = nA'.
+  Proof.
+    intros Hsim Hs Ha Hos. pose proof Hos as Hoa. destruct fm as [f ev]. rewrite !select_one_eq. intros X Y Hrel.
+    destruct (zget f (sel S)) as [[kev d]|] eqn:Ef.
+    - destruct (inv_sel_reg _ _ _ _ Hs f kev d Ef) as [(Hq & -> & ->)|(Hnq & Hd & Hr)].
+      + (* the work-queue descriptor: registered identically in both runs *)
+        rewrite (inv_wq _ _ _ _ Ha f Hq) in Y. unfold EVENT_READ in *.
+        destruct (negb n && is_wq wq f).
+        * destruct (N.land (N.land ev 1) 1 =? 0); [discriminate|].
+          inversion X; inversion Y; subst. split; [exact Hrel|reflexivity].
+        * inversion X; inversion Y; subst. split; [|reflexivity].
+          rewrite !zget_wbi_add. destruct (i =? f)%Z eqn:E; [|exact Hrel].
+          apply Z.eqb_eq in E; subst f. f_equal. apply wbi_entry_cong; exact Hrel.
+      + assert (Hnw : is_wq wq f = false).
+        { unfold is_wq. destruct wq as [q|]; [|reflexivity]. apply Z.eqb_neq. intros ->. apply Hnq; reflexivity. }
+        rewrite Hnw, andb_false_r in X. inversion X; subst. clear X.
+        pose proof (own_regs _ Hos d f kev Hr) as Hown.
+        destruct (Z.eq_dec d i) as [->|Hdi].
+        * rewrite <- (sim_sel _ _ _ Hsim f Hown), Ef, Hnw, andb_false_r in Y. inversion Y; subst.
+          split; [|reflexivity]. rewrite !zget_wbi_add, Z.eqb_refl. f_equal. apply wbi_entry_cong; exact Hrel.
+        * (* a descriptor of another work: unknown to the alone run *)
+          destruct (zget f (sel A)) as [[kev' d']|] eqn:Efa.
+          -- exfalso. destruct (sel_alone_entry i S A f kev' d' Hsim Ha Hoa Efa) as [Z0|Z0]; [|contradiction].
+             rewrite Ef in Z0. injection Z0 as Ek Ed.
+             destruct (inv_sel_reg _ _ _ _ Ha f kev' d' Efa) as [(Hq&_&_)|(_ & Hd' & _)]; [contradiction|].
+             apply zmem_zget in Hd'. rewrite <- Ed in Hd'. rewrite (sim_only _ _ _ Hsim d Hdi) in Hd'. congruence.
+          -- inversion Y; subst. split; [|reflexivity]. rewrite zget_wbi_add.
+             apply Z.eqb_neq in Hdi. rewrite Z.eqb_sym, Hdi. exact Hrel.
+    - inversion X; subst. clear X.
+      destruct (zget f (sel A)) as [[kev' d']|] eqn:Efa.
+      + exfalso. destruct (sel_alone_entry i S A f kev' d' Hsim Ha Hoa Efa) as [Z0|Z0]; [congruence|].
+        rewrite (inv_wq _ _ _ _ Hs f Z0) in Ef. discriminate.
+      + inversion Y; subst. split; [exact Hrel|reflexivity].
+  Qed.
+
+  Lemma select_loop_sim i (S A : State) l : forall wS wA n wS' nS' wA' nA',
+    sim i S A -> INV None S -> INV None A -> own S ->
+    select_loop wq (sel S) (wS, n) l = Ok (wS', nS') ->
+    select_loop wq (sel A) (wA, n) l = Ok (wA', nA') ->
+    zget i wS = zget i wA -> zget i wS' = zget i wA' /\ nS' = nA'.
+  Proof.
+    induction l as [|fm t IH]; intros wS wA n wS' nS' wA' nA' Hsim Hs Ha Hos; cbn [select_loop].
+    - intros X Y; inversion X; inversion Y; subst. auto.
+    - destruct (select_one wq (sel S) (wS, n) fm) as [[wS1 nS1]|] eqn:E1; [|discriminate].
+      destruct (select_one wq (sel A) (wA, n) fm) as [[wA1 nA1]|] eqn:E2; [|discriminate].
+      intros X Y Hrel.
+      destruct (select_one_sim i S A wS wA n fm wS1 nS1 wA1 nA1 Hsim Hs Ha Hos E1 E2 Hrel) as [Hrel1 <-].
+      eapply IH; eassumption.
+  Qed.
+
+  (* ---------------------------------------------------------------- arrivals *)
+  Lemma do_work_other e j w (S : State) :
+    own S -> good j w -> frame j S (DO_WORK e j w S) /\ own (DO_WORK e j w S).
+  Proof.
+    intros [G R] Hg. unfold do_work.
+    set (S0 := match wq with Some _ => set_oslog S (oslog S ++ [OsDup j]) | None => S end).
+    assert (F0 : frame j S S0).
+    { subst S0. destruct wq; [|apply frame_refl]. constructor; try reflexivity.
+      intros k Hk. cbn [oslog set_oslog]. rewrite os_of_app. cbn [os_of filter]. apply Z.eqb_neq in Hk.
+      rewrite Z.eqb_sym, Hk. apply app_nil_r. }
+    assert (O0 : own S0) by (subst S0; destruct wq; constructor; assumption).
+    clearbody S0. destruct O0 as [G0 R0].
+    pose proof (d_init Hdisc j w (ev_io e j) Hg) as Hg'.
+    destruct (w_initialize w (ev_io e j)) as [w' r]. cbn [fst] in Hg'.
+    set (S2 := set_works (set_works S0 (zset j w (works S0))) (zset j w' (works (set_works S0 (zset j w (works S0)))))).
+    assert (F2 : frame j S0 S2).
+    { subst S2. eapply frame_trans; apply set_works_frame. }
+    assert (O2 : own S2).
+    { subst S2. constructor.
+      - intros k wk. cbn [works set_works]. rewrite !zget_zset.
+        destruct (k =? j)%Z eqn:E; [apply Z.eqb_eq in E; subst; intros X; inversion X; subst; exact Hg'|apply G0].
+      - exact R0. }
+    clearbody S2. destruct r as [u|x].
+    - split; [eapply frame_trans; [exact F0|]; eapply frame_trans; [exact F2|constructor; reflexivity]|].
+      destruct O2 as [G2 R2]. constructor; assumption.
+    - split; [|apply cleanup_own; exact O2].
+      eapply frame_trans; [exact F0|]. eapply frame_trans; [exact F2|]. apply cleanup_frame.
+      intros f m. apply (own_regs _ O2).
+  Qed.
+
+  Lemma do_work_par e i w (S A : State) : sim i S A -> sim i (DO_WORK e i w S) (DO_WORK e i w A).
+  Proof.
+    intros Hsim. unfold do_work.
+    set (S0 := match wq with Some _ => set_oslog S (oslog S ++ [OsDup i]) | None => S end).
+    set (A0 := match wq with Some _ => set_oslog A (oslog A ++ [OsDup i]) | None => A end).
+    assert (H0 : sim i S0 A0).
+    { subst S0 A0. destruct wq; [|exact Hsim]. destruct Hsim as [S1 S2 S3 S4 S5 S6 S7 S8 S9].
+      constructor; try assumption. cbn [oslog set_oslog]. rewrite !os_of_app, S5. reflexivity. }
+    clearbody S0 A0.
+    destruct (w_initialize w (ev_io e i)) as [w' r].
+    pose proof (set_works_sim i _ _ w' (set_works_sim i S0 A0 w H0)) as H2.
+    destruct r as [u|x]; [|apply cleanup_par; exact H2].
+    destruct H2 as [S1 S2 S3 S4 S5 S6 S7 S8 S9]. constructor; assumption.
+  Qed.
+
+  (* ---------------------------------------------------------------- tasks *)
+  Lemma run_task_other e (S : State) t S' td :
+    own S -> zmem (t_work t) (works S) = true -> RUN_TASK e S t = (S', td) ->
+    frame (t_work t) S S' /\ own S' /\ (forall j, zmem j (works S') = zmem j (works S)).
+  Proof.
+    intros [G R] Hm. unfold run_task. apply zmem_zget in Hm.
+    destruct (zget (t_work t) (works S)) as [w|] eqn:Ew; [|congruence].
+    pose proof (d_handle Hdisc (t_work t) w (t_r t) (t_w t) (ev_io e (t_work t)) (G _ _ Ew)) as Hg.
+    destruct (w_handle_events w (t_r t) (t_w t) (ev_io e (t_work t))) as [w' r]. cbn [fst] in Hg.
+    intros X; inversion X; subst. split; [apply set_works_frame|]. split.
+    - constructor; [|exact R]. intros k wk. cbn [works set_works]. rewrite zget_zset.
+      destruct (k =? t_work t)%Z eqn:E; [apply Z.eqb_eq in E; rewrite E; intros Y; inversion Y; subst; exact Hg|apply G].
+    - intros j. cbn [works set_works]. rewrite zmem_zset. destruct (j =? t_work t)%Z eqn:E; [|reflexivity].
+      apply Z.eqb_eq in E; subst. symmetry. eapply zmem_some; exact Ew.
+  Qed.
+
+  Lemma run_task_par e i (S A : State) t S' tdS A' tdA :
+    sim i S A -> t_work t = i -> zmem i (works S) = true ->
+    RUN_TASK e S t = (S', tdS) -> RUN_TASK e A t = (A', tdA) -> sim i S' A' /\ tdS = tdA.
+  Proof.
+    intros Hsim Ht Hm. unfold run_task. rewrite Ht, <- (sim_work _ _ _ Hsim). apply zmem_zget in Hm.
+    destruct (zget i (works S)) as [w|]; [|congruence].
+    destruct (w_handle_events w (t_r t) (t_w t) (ev_io e i)) as [w' r].
+    intros X Y; inversion X; inversion Y; subst. split; [apply set_works_sim; exact Hsim|reflexivity].
+  Qed.
+
+  Definition is_i (i : work_id) (t : task) : bool := (t_work t =? i)%Z.
+
+  Lemma run_tasks_sim e i ts : forall (S A : State) S' resS A' resA,
+    sim i S A -> own S -> (forall t, In t ts -> zmem (t_work t) (works S) = true) ->
+    RUN_TASKS e S ts = (S', resS) -> RUN_TASKS e A (filter (is_i i) ts) = (A', resA) ->
+    sim i S' A' /\ own S' /\ resA = filter (fun p => (fst p =? i)%Z) resS.
+  Proof.
+    induction ts as [|t rest IH]; intros S A S' resS A' resA Hsim Hown Hlive; cbn [run_tasks filter].
+    - intros X Y; inversion X; inversion Y; subst. auto.
+    - destruct (RUN_TASK e S t) as [S1 td] eqn:E1.
+      destruct (RUN_TASKS e S1 rest) as [S2 l2] eqn:E2.
+      destruct (run_task_other e S t S1 td Hown (Hlive t (or_introl eq_refl)) E1) as (F1 & O1 & M1).
+      assert (Hlive1 : forall t0, In t0 rest -> zmem (t_work t0) (works S1) = true)
+        by (intros t0 Hin; rewrite M1; apply Hlive; right; exact Hin).
+      unfold is_i at 1. destruct (t_work t =? i)%Z eqn:Eti.
+      + apply Z.eqb_eq in Eti. cbn [run_tasks].
+        destruct (RUN_TASK e A t) as [A1 tda] eqn:E3.
+        destruct (RUN_TASKS e A1 (filter (is_i i) rest)) as [A2 la] eqn:E4.
+        intros X Y; inversion X; inversion Y; subst.
+        assert (Hmi : zmem (t_work t) (works S) = true) by (apply Hlive; left; reflexivity).
+        destruct (run_task_par e (t_work t) S A t S1 td A1 tda Hsim eq_refl Hmi E1 E3) as [Hsim1 <-].
+        destruct (IH S1 A1 S' l2 A' la Hsim1 O1 Hlive1 E2 E4) as (K1 & K2 & K3).
+        split; [exact K1|]. split; [exact K2|]. cbn [filter fst]. rewrite Z.eqb_refl, K3. reflexivity.
+      + apply Z.eqb_neq in Eti. intros X Y; inversion X; subst.
+        destruct (IH S1 A S' l2 A' resA (sim_frame i _ S S1 A Eti F1 Hsim) O1 Hlive1 E2 Y) as (K1 & K2 & K3).
+        split; [exact K1|]. split; [exact K2|]. cbn [filter fst]. apply Z.eqb_neq in Eti. rewrite Eti. exact K3.
+  Qed.
+
+  Lemma cleanup_finished_sim e i res : forall (S A : State),
+    sim i S A -> own S ->
+    sim i (CLEANUP_FIN e S res) (CLEANUP_FIN e A (filter (fun p => (fst p =? i)%Z) res)) /\ own (CLEANUP_FIN e S res).
+  Proof.
+    unfold cleanup_finished. induction res as [|[j td] t IH]; intros S A Hsim Hown; cbn [fold_left filter fst snd]; [auto|].
+    destruct (j =? i)%Z eqn:Eji.
+    - apply Z.eqb_eq in Eji; subst j. cbn [fold_left fst snd]. destruct td.
+      + apply IH; [apply cleanup_par; exact Hsim|apply cleanup_own; exact Hown].
+      + apply IH; assumption.
+    - apply Z.eqb_neq in Eji. destruct td; [|apply IH; assumption].
+      apply IH; [|apply cleanup_own; exact Hown].
+      eapply sim_frame; [exact Eji| |exact Hsim]. apply cleanup_frame. intros f m. apply (own_regs _ Hown).
+  Qed.
+
+  (* ---------------------------------------------------------------- inactive sweep *)
+  Lemma inactive_scan_sim e i ids : forall (S A : State) S' lS A' lA,
+    sim i S A -> own S ->
+    SCAN e S ids = (S', lS) -> SCAN e A (filter (fun j => (j =? i)%Z) ids) = (A', lA) ->
+    sim i S' A' /\ own S' /\ lA = filter (fun j => (j =? i)%Z) lS.
+  Proof.
+    induction ids as [|j t IH]; intros S A S' lS A' lA Hsim Hown; cbn [inactive_scan filter].
+    - intros X Y; inversion X; inversion Y; subst. auto.
+    - destruct (j =? i)%Z eqn:Eji.
+      + apply Z.eqb_eq in Eji; subst j. cbn [inactive_scan]. rewrite <- (sim_work _ _ _ Hsim).
+        destruct (zget i (works S)) as [w|] eqn:Ew; [|apply IH; assumption].
+        pose proof (d_inactive Hdisc i w (ev_clock e) (ev_io e i) (own_good _ Hown i w Ew)) as Hg.
+        destruct (w_is_inactive w (ev_clock e) (ev_io e i)) as [w' r]. cbn [fst] in Hg.
+        destruct (SCAN e (set_works S (zset i w' (works S))) t) as [S2 l2] eqn:E2.
+        destruct (SCAN e (set_works A (zset i w' (works A))) (filter (fun j => (j =? i)%Z) t)) as [A2 la] eqn:E3.
+        intros X Y; inversion X; inversion Y; subst.
+        assert (O1 : own (set_works S (zset i w' (works S)))).
+        { destruct Hown as [G R]. constructor; [|exact R]. intros k wk. cbn [works set_works]. rewrite zget_zset.
+          destruct (k =? i)%Z eqn:E; [apply Z.eqb_eq in E; subst; intros Z0; inversion Z0; subst; exact Hg|apply G]. }
+        destruct (IH _ _ S' l2 A' la (set_works_sim i S A w' Hsim) O1 E2 E3) as (K1 & K2 & K3).
+        split; [exact K1|]. split; [exact K2|].
+        destruct (match r with Ok b => b | Err _ => true end); cbn [filter]; [rewrite Z.eqb_refl|]; rewrite K3; reflexivity.
+      + apply Z.eqb_neq in Eji.
+        destruct (zget j (works S)) as [w|] eqn:Ew; [|apply IH; assumption].
+        pose proof (d_inactive Hdisc j w (ev_clock e) (ev_io e j) (own_good _ Hown j w Ew)) as Hg.
+        destruct (w_is_inactive w (ev_clock e) (ev_io e j)) as [w' r]. cbn [fst] in Hg.
+        destruct (SCAN e (set_works S (zset j w' (works S))) t) as [S2 l2] eqn:E2.
+        intros X Y; inversion X; subst.
+        assert (O1 : own (set_works S (zset j w' (works S)))).
+        { destruct Hown as [G R]. constructor; [|exact R]. intros k wk. cbn [works set_works]. rewrite zget_zset.
+          destruct (k =? j)%Z eqn:E; [apply Z.eqb_eq in E; subst; intros Z0; inversion Z0; subst; exact Hg|apply G]. }
+        destruct (IH _ A S' l2 A' lA (sim_frame i j S _ A Eji (set_works_frame j S w') Hsim) O1 E2 Y) as (K1 & K2 & K3).
+        split; [exact K1|]. split; [exact K2|].
+        destruct (match r with Ok b => b | Err _ => true end); cbn [filter]; [apply Z.eqb_neq in Eji; rewrite Eji|]; exact K3.
+  Qed.
+
+  Lemma cleanup_all_sim e i l : forall (S A : State),
+    sim i S A -> own S ->
+    sim i (fold_left (fun st j => CLEANUP e j st) l S)
+          (fold_left (fun st j => CLEANUP e j st) (filter (fun j => (j =? i)%Z) l) A) /\
+    own (fold_left (fun st j => CLEANUP e j st) l S).
+  Proof.
+    induction l as [|j t IH]; intros S A Hsim Hown; cbn [fold_left filter]; [auto|].
+    destruct (j =? i)%Z eqn:Eji.
+    - apply Z.eqb_eq in Eji; subst j. cbn [fold_left]. apply IH; [apply cleanup_par; exact Hsim|apply cleanup_own; exact Hown].
+    - apply Z.eqb_neq in Eji. apply IH; [|apply cleanup_own; exact Hown].
+      eapply sim_frame; [exact Eji| |exact Hsim]. apply cleanup_frame. intros f m. apply (own_regs _ Hown).
+  Qed.
+
+  Lemma cleanup_inactive_sim e i (S A : State) :
+    sim i S A -> own S -> INV None S -> INV None A ->
+    sim i (CLEANUP_INACTIVE e S) (CLEANUP_INACTIVE e A) /\ own (CLEANUP_INACTIVE e S).
+  Proof.
+    intros Hsim Hown Hs Ha. unfold cleanup_inactive.
+    rewrite (keys_alone i S A Hsim (inv_nodup _ _ _ _ Hs) (inv_nodup _ _ _ _ Ha)).
+    destruct (SCAN e S (zkeys (works S))) as [S1 lS] eqn:E1.
+    destruct (SCAN e A (filter (fun j => (j =? i)%Z) (zkeys (works S)))) as [A1 lA] eqn:E2.
+    destruct (inactive_scan_sim e i _ S A S1 lS A1 lA Hsim Hown E1 E2) as (K1 & K2 & ->).
+    apply cleanup_all_sim; assumption.
+  Qed.
+
+  (* ---------------------------------------------------------------- restrict only changes the arrival *)
+  Lemma cleanup_restrict i e j (st : State) : CLEANUP (restrict i e) j st = CLEANUP e j st.
+  Proof. reflexivity. Qed.
+  Lemma uwe_loop_restrict i e j evs : forall (st : State), UWE_LOOP (restrict i e) j st evs = UWE_LOOP e j st evs.
+  Proof.
+    induction evs as [|fm t IH]; intros st; cbn [uwe_loop]; [reflexivity|].
+    change (UWE_ONE (restrict i e) j st fm) with (UWE_ONE e j st fm).
+    destruct (UWE_ONE e j st fm) as [st' r]. destruct r; [apply IH|reflexivity].
+  Qed.
+  Lemma update_work_events_restrict i e j (st : State) : UWE (restrict i e) j st = UWE e j st.
+  Proof.
+    unfold update_work_events. destruct (zget j (works st)) as [w|]; [|reflexivity].
+    cbn [ev_io restrict]. destruct (w_get_events w (ev_io e j)) as [w' r]. destruct r; [apply uwe_loop_restrict|reflexivity].
+  Qed.
+  Lemma update_selector_one_restrict i e unf (st : State) j : UPD_ONE (restrict i e) unf st j = UPD_ONE e unf st j.
+  Proof.
+    unfold update_selector_one. destruct (zin j unf); [reflexivity|]. rewrite update_work_events_restrict.
+    destruct (UWE e j st) as [st' r]. destruct r; reflexivity.
+  Qed.
+  Lemma update_selector_restrict i e (st : State) : UPD (restrict i e) st = UPD e st.
+  Proof.
+    unfold update_selector. generalize (map t_work (unfinished st)) as unf. generalize (zkeys (works st)) as l.
+    intros l unf. revert st. induction l as [|j t IH]; intros st; cbn [fold_left]; [reflexivity|].
+    rewrite update_selector_one_restrict. apply IH.
+  Qed.
+  Lemma run_tasks_restrict i e ts : forall (st : State), RUN_TASKS (restrict i e) st ts = RUN_TASKS e st ts.
+  Proof.
+    induction ts as [|t rest IH]; intros st; cbn [run_tasks]; [reflexivity|].
+    change (RUN_TASK (restrict i e) st t) with (RUN_TASK e st t).
+    destruct (RUN_TASK e st t) as [st' td]. rewrite IH. reflexivity.
+  Qed.
+  Lemma cleanup_finished_restrict i e res : forall (st : State), CLEANUP_FIN (restrict i e) st res = CLEANUP_FIN e st res.
+  Proof.
+    unfold cleanup_finished. induction res as [|x t IH]; intros st; cbn [fold_left]; [reflexivity|].
+    rewrite cleanup_restrict. apply IH.
+  Qed.
+  Lemma inactive_scan_restrict i e ids : forall (st : State), SCAN (restrict i e) st ids = SCAN e st ids.
+  Proof.
+    induction ids as [|j t IH]; intros st; cbn [inactive_scan]; [reflexivity|].
+    destruct (zget j (works st)) as [w|]; [|apply IH]. cbn [ev_io ev_clock restrict].
+    destruct (w_is_inactive w (ev_clock e) (ev_io e j)) as [w' r]. rewrite IH. reflexivity.
+  Qed.
+  Lemma cleanup_inactive_restrict i e (st : State) : CLEANUP_INACTIVE (restrict i e) st = CLEANUP_INACTIVE e st.
+  Proof.
+    unfold cleanup_inactive. rewrite inactive_scan_restrict. destruct (SCAN e st (zkeys (works st))) as [st' l].
+    revert st'. induction l as [|j t IH]; intros st'; cbn [fold_left]; [reflexivity|]. rewrite cleanup_restrict. apply IH.
+  Qed.
+
+  (* ---------------------------------------------------------------- _run_once *)
+  Definition task_of (p : Z * (list fd * list fd)) : task :=
+    {| t_work := fst p; t_r := fst (snd p); t_w := snd (snd p) |}.
+
+  Lemma create_tasks_shape (st : State) wbi ts : create_tasks W st wbi = Ok ts -> ts = map task_of wbi.
+  Proof.
+    revert ts. induction wbi as [|[j [rs ws]] t IH]; intros ts; cbn [create_tasks map].
+    - intros X; inversion X; reflexivity.
+    - destruct (j =? 0)%Z; [discriminate|]. destruct (zget j (works st)); [|discriminate].
+      destruct (create_tasks W st t) as [ts'|]; [|discriminate].
+      intros X; inversion X; subst. rewrite (IH ts' eq_refl). reflexivity.
+  Qed.
+
+  Lemma filter_entry_nodup {V} i (d : zdict V) :
+    NoDup (zkeys d) ->
+    filter (fun p => (fst p =? i)%Z) d = match zget i d with Some x => [(i, x)] | None => [] end.
+  Proof.
+    induction d as [|[k v] t IH]; cbn [zkeys map fst filter zget]; intros Hn; [reflexivity|].
+    inversion Hn as [|? ? Hk Ht]; subst. rewrite (Z.eqb_sym i k).
+    destruct (k =? i)%Z eqn:E.
+    - apply Z.eqb_eq in E; subst k. rewrite (IH Ht).
+      destruct (zget i t) eqn:Eg; [|reflexivity].
+      exfalso. apply Hk. apply zkeys_zget. unfold zkeys in *. congruence.
+    - apply IH; exact Ht.
+  Qed.
+
+  Lemma filter_all_In {X} (f : X -> bool) l : (forall x, In x l -> f x = true) -> filter f l = l.
+  Proof.
+    induction l as [|x t IH]; cbn [filter]; intros H; [reflexivity|].
+    rewrite (H x (or_introl eq_refl)), IH; [reflexivity|]. intros y Hy; apply H; right; exact Hy.
+  Qed.
+
+  Lemma single_entry {V} i (d : zdict V) :
+    (forall j, j <> i -> zget j d = None) -> NoDup (zkeys d) ->
+    d = match zget i d with Some x => [(i, x)] | None => [] end.
+  Proof.
+    intros Honly Hn. etransitivity; [|apply (filter_entry_nodup i d Hn)].
+    symmetry. apply filter_all_In. intros [k v] Hin. cbn [fst].
+    apply Z.eqb_eq. destruct (Z.eq_dec k i) as [|Hne]; [assumption|].
+    exfalso. assert (Hk : In k (zkeys d)) by (apply in_map_iff; exists (k, v); auto).
+    apply zkeys_zget in Hk. rewrite (Honly k Hne) in Hk. congruence.
+  Qed.
+
+  Lemma filter_tasks i (wbi : work_by_ids) :
+    filter (is_i i) (map task_of wbi) = map task_of (filter (fun p => (fst p =? i)%Z) wbi).
+  Proof.
+    induction wbi as [|p t IH]; cbn [map filter]; [reflexivity|].
+    unfold is_i at 1. cbn [task_of t_work]. destruct (fst p =? i)%Z; cbn [map]; rewrite IH; reflexivity.
+  Qed.
+
+  Definition prompt_ev (e : Event) : Prop := forall j, ev_fin e j = true.
+  Definition arrival_good (e : Event) : Prop :=
+    match ev_arrival e with ANew j w => good j w | _ => True end.
+
+  Lemma filter_true {X} (f : X -> bool) l : (forall x, f x = true) -> filter f l = l.
+  Proof. intros H. induction l as [|x t IH]; cbn [filter]; [reflexivity|]. rewrite H, IH. reflexivity. Qed.
+  Lemma filter_false {X} (f : X -> bool) l : (forall x, f x = false) -> filter f l = [].
+  Proof. intros H. induction l as [|x t IH]; cbn [filter]; [reflexivity|]. rewrite H, IH. reflexivity. Qed.
+
+  Lemma sim_reset_unf_S i (S A : State) x : sim i S A -> sim i (set_unfinished (set_unfinished S x) []) A.
+  Proof. intros [S1 S2 S3 S4 S5 S6 S7 S8 S9]. constructor; cbn; try assumption. reflexivity. Qed.
+  Lemma sim_reset_unf_A i (S A : State) x : sim i S A -> sim i S (set_unfinished (set_unfinished A x) []).
+  Proof. intros [S1 S2 S3 S4 S5 S6 S7 S8 S9]. constructor; cbn; try assumption. reflexivity. Qed.
+  Lemma own_set_unf (S : State) x : own S -> own (set_unfinished S x).
+  Proof. intros [G R]. constructor; assumption. Qed.
+
+  Lemma good_ids_only i (S A : State) wbi :
+    sim i S A -> good_ids W A wbi -> forall j, j <> i -> zget j wbi = None.
+  Proof.
+    intros Hsim Hg j Hj. destruct (zget j wbi) eqn:E; [|reflexivity]. exfalso.
+    assert (Hin : In j (zkeys wbi)) by (apply zkeys_zget; congruence).
+    unfold good_ids in Hg. rewrite Forall_forall in Hg. destruct (Hg j Hin) as [Hm _].
+    apply zmem_zget in Hm. rewrite (sim_only _ _ _ Hsim j Hj) in Hm. congruence.
+  Qed.
+
+  Lemma receive_sim e i (S A : State) S1 tdS A1 tdA :
+    sim i S A -> own S -> arrival_good e ->
+    RECEIVE e S = (S1, tdS) -> RECEIVE (restrict i e) A = (A1, tdA) ->
+    sim i S1 A1 /\ own S1 /\ tdS = tdA.
+  Proof.
+    intros Hsim Hown Hg. unfold receive_from_work_queue, arrival_good in *. cbn [ev_arrival restrict].
+    destruct (ev_arrival e) as [| |j w].
+    - intros X Y; inversion X; inversion Y; subst. auto.
+    - intros X Y; inversion X; inversion Y; subst. auto.
+    - destruct (j =? i)%Z eqn:Eji.
+      + apply Z.eqb_eq in Eji; subst j. intros X Y; inversion X; inversion Y; subst.
+        split; [apply (do_work_par e i w S A Hsim)|]. split; [apply do_work_other; assumption|reflexivity].
+      + apply Z.eqb_neq in Eji. intros X Y; inversion X; inversion Y; subst.
+        destruct (do_work_other e j w S Hown Hg) as [F O].
+        split; [eapply sim_frame; eassumption|]. split; [exact O|reflexivity].
+  Qed.
+
+  Lemma arrival_fresh_restrict e i (S A : State) :
+    sim i S A -> arrival_fresh W IO e S -> arrival_fresh W IO (restrict i e) A.
+  Proof.
+    intros Hsim. unfold arrival_fresh. cbn [ev_arrival restrict].
+    destruct (ev_arrival e) as [| |j w]; auto.
+    destruct (j =? i)%Z eqn:Eji; [|auto]. apply Z.eqb_eq in Eji; subst j.
+    unfold zmem. rewrite (sim_work _ _ _ Hsim). auto.
+  Qed.
+
+  Lemma run_once_rest_sim e i (S A : State) S' rS A' rA :
+    sim i S A -> own S -> INV None S -> INV None A ->
+    kernel_ok W IO wq e -> arrival_fresh W IO e S -> arrival_good e -> prompt_ev e ->
+    REST e S = (S', rS) -> REST (restrict i e) A = (A', rA) ->
+    sim i S' A' /\ own S' /\ rS = rA.
+  Proof.
+    intros Hsim Hown Hs Ha Hk Hf Hg Hp. unfold run_once_rest.
+    change (selected_events W IO wq (restrict i e) A) with (selected_events W IO wq e A).
+    destruct (selected_events_ok W IO wq e S Hs Hk) as (wS & nS & ES & HgS).
+    destruct (selected_events_ok W IO wq e A Ha Hk) as (wA & nA & EA & HgA).
+    rewrite ES, EA. unfold selected_events in ES, EA.
+    destruct (select_loop_sim i S A (ev_ready e) [] [] _ wS nS wA nA Hsim Hs Ha Hown ES EA eq_refl) as [Hw <-].
+    pose proof (select_loop_nodup _ _ _ _ ES (NoDup_nil _)) as HnS. cbn [fst] in HnS.
+    pose proof (select_loop_nodup _ _ _ _ EA (NoDup_nil _)) as HnA. cbn [fst] in HnA.
+    pose proof (good_ids_only i S A wA Hsim HgA) as HonlyA.
+    destruct (if nS then RECEIVE e S else (S, false)) as [S1 tdS] eqn:ErS.
+    destruct (if nS then RECEIVE (restrict i e) A else (A, false)) as [A1 tdA] eqn:ErA.
+    assert (H1 : sim i S1 A1 /\ own S1 /\ tdS = tdA).
+    { destruct nS; [eapply receive_sim; eassumption|]. inversion ErS; inversion ErA; subst. auto. }
+    destruct H1 as (Hsim1 & Hown1 & <-).
+    assert (HinvS1 : INV None S1 /\ grow_frame W S S1).
+    { destruct nS; [eapply receive_inv; eassumption|]. inversion ErS; subst. split; [exact Hs|]. split; [auto|split; reflexivity]. }
+    destruct HinvS1 as [Hs1 (GS1 & _ & _)].
+    destruct tdS; [intros X Y; inversion X; inversion Y; subst; auto|].
+    (* the alone run has at most the entry of work i *)
+    pose proof (single_entry i wA HonlyA HnA) as HwA. rewrite <- Hw in HwA.
+    pose proof (filter_entry_nodup i wS HnS) as HfS.
+    destruct wS as [|pS wS'].
+    - cbn [zget] in HwA. subst wA. intros X Y; inversion X; inversion Y; subst. auto.
+    - destruct (create_tasks_ok W S1 (pS :: wS') (good_ids_grow W S S1 _ GS1 HgS)) as (tsS & EcS & HkS). rewrite EcS.
+      pose proof (create_tasks_shape S1 _ tsS EcS) as HshS.
+      unfold wait_for_tasks. cbn [unfinished set_unfinished].
+      rewrite (sim_unfS _ _ _ Hsim1). cbn [app].
+      rewrite (filter_true (fun t : task => ev_fin e (t_work t)) tsS) by (intros t; apply Hp).
+      rewrite (filter_false (fun t : task => negb (ev_fin e (t_work t))) tsS) by (intros t; rewrite Hp; reflexivity).
+      destruct (RUN_TASKS e (set_unfinished (set_unfinished S1 tsS) []) tsS) as [S4 resS] eqn:E4.
+      intros X; inversion X as [[HS' HrS]]. subst S' rS. clear X.
+      assert (Hlive : forall t, In t tsS -> zmem (t_work t) (works (set_unfinished (set_unfinished S1 tsS) [])) = true).
+      { intros t Hin. cbn [works set_unfinished].
+        assert (Hin' : In (t_work t) (map t_work tsS)) by (apply in_map; exact Hin).
+        rewrite HkS in Hin'. pose proof (good_ids_grow W S S1 _ GS1 HgS) as HgS1.
+        unfold good_ids in HgS1. rewrite Forall_forall in HgS1. apply (HgS1 _ Hin'). }
+      assert (HtsA : filter (is_i i) tsS = map task_of wA).
+      { rewrite HshS, filter_tasks, HfS, HwA. reflexivity. }
+      destruct wA as [|pA wA'].
+      + (* nothing is ready for work i: the alone run returns at once *)
+        intros Y; inversion Y as [[HA' HrA]]. subst A' rA. clear Y.
+        assert (E5 : RUN_TASKS e A1 (filter (is_i i) tsS) = (A1, [])) by (rewrite HtsA; reflexivity).
+        destruct (run_tasks_sim e i tsS _ A1 S4 resS A1 [] (sim_reset_unf_S i S1 A1 tsS Hsim1)
+                    (own_set_unf _ _ (own_set_unf _ _ Hown1)) Hlive E4 E5) as (K1 & K2 & K3).
+        destruct (cleanup_finished_sim e i resS S4 A1 K1 K2) as [L1 L2]. rewrite <- K3 in L1.
+        split; [exact L1|]. split; [exact L2|reflexivity].
+      + assert (Hlen : exists x, pA :: wA' = [(i, x)]).
+        { destruct (zget i (pS :: wS')); [eexists; exact HwA|discriminate]. }
+        destruct Hlen as [x Hx].
+        assert (HgA1 : good_ids W A1 (pA :: wA')).
+        { rewrite Hx. unfold good_ids. cbn [zkeys map fst]. constructor; [|constructor].
+          rewrite Hx in HgA. unfold good_ids in HgA. cbn [zkeys map fst] in HgA. inversion HgA as [|? ? [Hm Hnz] _]; subst.
+          split; [|exact Hnz]. unfold zmem in *. rewrite <- (sim_work _ _ _ Hsim1).
+          assert (Hm' : zmem i (works S1) = true).
+          { apply GS1. unfold zmem. rewrite (sim_work _ _ _ Hsim). exact Hm. }
+          exact Hm'. }
+        destruct (create_tasks_ok W A1 _ HgA1) as (tsA & EcA & _). rewrite EcA.
+        pose proof (create_tasks_shape A1 _ tsA EcA) as HshA. rewrite <- HtsA in HshA.
+        cbn [unfinished set_unfinished ev_fin restrict]. rewrite (sim_unfA _ _ _ Hsim1). cbn [app].
+        rewrite (filter_true (fun t : task => ev_fin e (t_work t)) tsA) by (intros t; apply Hp).
+        rewrite (filter_false (fun t : task => negb (ev_fin e (t_work t))) tsA) by (intros t; rewrite Hp; reflexivity).
+        rewrite run_tasks_restrict.
+        destruct (RUN_TASKS e (set_unfinished (set_unfinished A1 tsA) []) tsA) as [A4 resA] eqn:E5.
+        rewrite cleanup_finished_restrict.
+        intros Y; inversion Y as [[HA' HrA]]. subst A' rA. clear Y. rewrite HshA in E5.
+        destruct (run_tasks_sim e i tsS _ _ S4 resS A4 resA
+                    (sim_reset_unf_A i _ A1 (filter (is_i i) tsS) (sim_reset_unf_S i S1 A1 tsS Hsim1))
+                    (own_set_unf _ _ (own_set_unf _ _ Hown1)) Hlive E4 E5) as (K1 & K2 & K3).
+        destruct (cleanup_finished_sim e i resS S4 A4 K1 K2) as [L1 L2]. rewrite <- K3 in L1.
+        split; [exact L1|]. split; [exact L2|reflexivity].
+  Qed.
+
+  (* ---------------------------------------------------------------- one turn of the loop, and the whole run *)
+  Lemma set_tick_sim i (S A : State) x : sim i S A -> sim i (set_tick S x) (set_tick A x).
+  Proof. intros [S1 S2 S3 S4 S5 S6 S7 S8 S9]. constructor; cbn; try assumption. reflexivity. Qed.
+  Lemma own_set_tick (S : State) x : own S -> own (set_tick S x).
+  Proof. intros [G R]. constructor; assumption. Qed.
+
+  Record joint (i : work_id) (S A : State) : Prop := {
+    j_sim : sim i S A; j_own : own S; j_invS : INV None S; j_invA : INV None A
+  }.
+
+  Lemma loop_body_sim e i (S A : State) S' sS A' sA :
+    joint i S A -> env_ok W IO w_get_events w_shutdown wq e S -> arrival_good e -> prompt_ev e ->
+    BODY e S = (S', sS) -> BODY (restrict i e) A = (A', sA) ->
+    sS = sA /\ joint i S' A' /\ env_ok W IO w_get_events w_shutdown wq (restrict i e) A.
+  Proof.
+    intros [Hsim Hown Hs Ha] [Hk Hf] Hg Hp. unfold loop_body, run_once.
+    rewrite update_selector_restrict.
+    destruct (update_selector_sim e i S A Hsim Hown Hs Ha) as [HsimU HownU].
+    destruct (update_selector_inv W IO w_get_events w_shutdown wq e S Hs) as [HsU _].
+    destruct (update_selector_inv W IO w_get_events w_shutdown wq e A Ha) as [HaU _].
+    pose proof (arrival_fresh_restrict e i _ _ HsimU Hf) as HfA.
+    assert (HenvA : env_ok W IO w_get_events w_shutdown wq (restrict i e) A).
+    { split; [exact Hk|]. rewrite update_selector_restrict. exact HfA. }
+    destruct (REST e (UPD e S)) as [S1 rS] eqn:E1. destruct (REST (restrict i e) (UPD e A)) as [A1 rA] eqn:E2.
+    destruct (run_once_rest_sim e i _ _ S1 rS A1 rA HsimU HownU HsU HaU Hk Hf Hg Hp E1 E2) as (Hsim1 & Hown1 & <-).
+    destruct (run_once_rest_inv W IO w_initialize w_handle_events w_shutdown wq e _ S1 rS HsU Hk Hf E1) as [Hs1 [b ->]].
+    destruct (run_once_rest_inv W IO w_initialize w_handle_events w_shutdown wq (restrict i e) _ A1 _ HaU Hk HfA E2) as [Ha1 _].
+    destruct b.
+    { intros X Y; inversion X; inversion Y; subst. split; [reflexivity|]. split; [constructor; assumption|exact HenvA]. }
+    rewrite <- (sim_tick _ _ _ Hsim1). rewrite cleanup_inactive_restrict. cbn [ev_running_set restrict].
+    destruct (cleanup_inactive_sim e i S1 A1 Hsim1 Hown1 Hs1 Ha1) as [Hsim2 Hown2].
+    pose proof (cleanup_inactive_inv W IO w_shutdown w_is_inactive wq e S1 Hs1) as Hs2.
+    pose proof (cleanup_inactive_inv W IO w_shutdown w_is_inactive wq e A1 Ha1) as Ha2.
+    destruct (tick_limit <=? tick S1).
+    - destruct (ev_running_set e); intros X Y; inversion X; inversion Y; subst.
+      + split; [reflexivity|]. split; [constructor; assumption|exact HenvA].
+      + split; [reflexivity|]. split; [|exact HenvA].
+        constructor; [apply set_tick_sim; exact Hsim2|apply own_set_tick; exact Hown2|apply set_tick_inv; exact Hs2|apply set_tick_inv; exact Ha2].
+    - intros X Y; inversion X; inversion Y; subst. split; [reflexivity|]. split; [|exact HenvA].
+      constructor; [apply set_tick_sim; exact Hsim1|apply own_set_tick; exact Hown1|apply set_tick_inv; exact Hs1|apply set_tick_inv; exact Ha1].
+  Qed.
+
+  Lemma run_forever_sim i evs : forall (S A : State) S' sS A' sA,
+    joint i S A ->
+    sched_ok W IO w_initialize w_get_events w_handle_events w_shutdown w_is_inactive wq tick_limit evs S ->
+    Forall arrival_good evs -> Forall prompt_ev evs ->
+    RUN evs S = (S', sS) -> RUN (map (restrict i) evs) A = (A', sA) ->
+    sS = sA /\ joint i S' A' /\
+    sched_ok W IO w_initialize w_get_events w_handle_events w_shutdown w_is_inactive wq tick_limit (map (restrict i) evs) A.
+  Proof.
+    induction evs as [|e t IH]; intros S A S' sS A' sA Hj Hs Hg Hp; cbn [run_forever map sched_ok].
+    - intros X Y; inversion X; inversion Y; subst. auto.
+    - cbn [sched_ok] in Hs. destruct Hs as [He Ht].
+      inversion Hg as [|? ? Hg1 Hg2]; subst. inversion Hp as [|? ? Hp1 Hp2]; subst.
+      destruct (BODY e S) as [S1 s1] eqn:E1. destruct (BODY (restrict i e) A) as [A1 a1] eqn:E2.
+      destruct (loop_body_sim e i S A S1 s1 A1 a1 Hj He Hg1 Hp1 E1 E2) as (<- & Hj1 & HeA).
+      destruct s1.
+      + intros X Y. destruct (IH S1 A1 S' sS A' sA Hj1 Ht Hg2 Hp2 X Y) as (K1 & K2 & K3). auto.
+      + intros X Y; inversion X; inversion Y; subst. auto.
+      + intros X Y; inversion X; inversion Y; subst. auto.
+  Qed.
+
+  Lemma joint_init i : joint i (init_state W wq) (init_state W wq).
+  Proof.
+    constructor; try apply inv_init.
+    - constructor; reflexivity.
+    - constructor; cbn; discriminate.
+  Qed.
+
+  (* what work i sees of the final state, spelled out *)
+  Definition same_view (i : work_id) (S A : State) : Prop :=
+    zget i (works S) = zget i (works A) /\                         (* the work object itself (None once it is over) *)
+    zget i (registered S) = zget i (registered A) /\               (* its registered events *)
+    (forall f, owner f = i -> zget f (sel S) = zget f (sel A)) /\  (* its descriptors in the selector *)
+    gone_of i (gone S) = gone_of i (gone A) /\                     (* the work as it was shut down *)
+    os_of i (oslog S) = os_of i (oslog A) /\
+    (forall j, j <> i -> zget j (works A) = None).                 (* A really is the run of work i alone *)
+
+  Theorem noninterference : forall evs i S' s A' a,
+    sched_ok W IO w_initialize w_get_events w_handle_events w_shutdown w_is_inactive wq tick_limit evs (init_state W wq) ->
+    Forall arrival_good evs -> Forall prompt_ev evs ->
+    RUN evs (init_state W wq) = (S', s) ->
+    RUN (map (restrict i) evs) (init_state W wq) = (A', a) ->
+    s = a /\ same_view i S' A' /\ (forall x, s <> Crashed x).
+  Proof.
+    intros evs i S' s A' a Hs Hg Hp X Y.
+    destruct (run_forever_sim i evs _ _ S' s A' a (joint_init i) Hs Hg Hp X Y) as (<- & [[S1 S2 S3 S4 S5 S6 S7 S8 S9] _ _ _] & _).
+    split; [reflexivity|]. split; [repeat split; assumption|].
+    eapply loop_survives; eassumption.
+  Qed.
 End NI.
